@@ -180,7 +180,8 @@ def stepCumulative (st : State) (name : String) (size : Int) (prod : Int) (cost 
 
 def stepSelect (st : State) (name : Option String) (workers : List String) (n : Int) (kind : CountKind) : Res :=
   if workers.length < 2 || n ≤ 0 then fail st .validation
-  else if workers.any (fun w => (st.findWorker w).isNone) then fail st .validation   -- not a Worker instance
+  -- every entry is a Worker or a CumulativeWorker instance
+  else if workers.any (fun w => (st.findWorker w).isNone && (st.findCumul w).isNone) then fail st .validation
   else if n > workers.length then fail st .value
   else if !st.active then fail st .attribute
   else if name.isSome && st.selects.any (·.name == name) then fail st .value
@@ -226,7 +227,12 @@ def stepRequire (st : State) (tname : String) (res : ResRef) (dynamic : Bool) (d
     | .select i =>
         match st.findSelect i with
         | none => fail st .type_
-        | some s => requireSelect st t s
+        | some s =>
+            -- a selection that lists a CumulativeWorker itself: requiring it is outside the model (the real code
+            -- gives the cumulative object a busy interval of its own and enforces no capacity: finding F40);
+            -- the harness never generates it
+            if s.workers.any (fun w => (st.findWorker w).isNone) then fail st .other
+            else requireSelect st t s
     | .cumul c =>
         match st.findCumul c with
         | none => fail st .type_
